@@ -1000,6 +1000,15 @@ fn index_query(_tier: &str) -> Result<String, String> {
                     if has && !may { bad = Some(format!("chunks {list:?} with min_offset {mo} give {out:?}: [{v}, {}) is covered by no input chunk", v + 1)); break 'outer; } }
                 if out.windows(2).any(|w| w[0].1 >= w[1].0) || out.iter().any(|&(a, b)| a >= b) { bad = Some(format!("chunks {list:?} with min_offset {mo} give {out:?}: not sorted and pairwise disjoint")); break 'outer; }
             } }
+        // Bin::add_chunk ("adds or merges a chunk"), any order of arrival: the bin covers everything the chunks given to it cover
+        let mut bad_add: Option<String> = None;
+        'add: for list in &lists { n_cases += 1;
+            let mut bin = csi::binning_index::index::reference_sequence::Bin::new(Vec::new());
+            for &(a, b) in list { bin.add_chunk(Chunk::new(vp(a), vp(b))); }
+            let out: Vec<(u64, u64)> = bin.chunks().iter().map(|c| (u64::from(c.start()), u64::from(c.end()))).collect();
+            for v in 0..6u64 { let want = list.iter().any(|&(a, b)| a <= v && v < b); let has = out.iter().any(|&(a, b)| a <= v && v < b);
+                if want && !has { bad_add = Some(format!("chunks {list:?} added one by one give {out:?}: [{v}, {}) was covered by a chunk and is not covered by the bin", v + 1)); break 'add; } } }   // (covering MORE, the hull of two merged chunks, only costs reading)
+        if let Some(b) = bad_add { fails.entry("add_chunk".into()).or_insert_with(|| format!("Bin::add_chunk: {b}")); }
         queries += n_cases;
         if let Some(b) = bad { fails.entry("optimize_chunks".into()).or_insert_with(|| format!("optimize_chunks: {b}")); }
     }
